@@ -211,9 +211,112 @@ func (b *BCE) Unproven(fset *token.FileSet, lbrack token.Pos) bool {
 	return ok
 }
 
-// siteKey builds a structural key for a construct inside a function.
+// siteKey builds a structural key for a construct inside a function. Local
+// variable names (parameters, receivers, locals, range and closure variables)
+// are replaced by their types, so that renaming a local does not turn a
+// discharged construct into a new one: `ps.items[0]` is keyed as
+// `‹*popSet›.items[0]`.
 func siteKey(f *ScopeFunc, what string) string {
-	return fmt.Sprintf("%s | %s", f.Name, what)
+	if os.Getenv("J5CHECK_OLDKEYS") != "" {
+		return fmt.Sprintf("%s | %s", f.Name, what)
+	}
+	return fmt.Sprintf("%s | %s", f.Name, normLocals(f, what))
+}
+
+var localNamesCache = map[*ScopeFunc]map[string]string{}
+
+// localNames maps the names of the function's local variables (including those
+// of the function that encloses a closure) to a short type string; a name
+// bound to values of different types maps to "var".
+func localNames(f *ScopeFunc) map[string]string {
+	if m, ok := localNamesCache[f]; ok {
+		return m
+	}
+	m := map[string]string{}
+	info := f.Pkg.TypesInfo
+	root := f.Node
+	if _, isLit := root.(*ast.FuncLit); isLit {
+		if fd := core.EnclosingFunc(f.Pkg, root.Pos()); fd != nil {
+			root = fd
+		}
+	}
+	pkgScope := f.Pkg.Types.Scope()
+	ast.Inspect(root, func(n ast.Node) bool {
+		id, ok := n.(*ast.Ident)
+		if !ok || id.Name == "_" {
+			return true
+		}
+		obj := info.Defs[id]
+		if obj == nil {
+			return true
+		}
+		v, isVar := obj.(*types.Var)
+		if !isVar || v.IsField() || v.Parent() == pkgScope {
+			return true
+		}
+		t := shortType(v.Type())
+		if prev, seen := m[id.Name]; seen && prev != t {
+			m[id.Name] = "var"
+		} else {
+			m[id.Name] = t
+		}
+		return true
+	})
+	// implicit objects of type switches
+	ast.Inspect(root, func(n ast.Node) bool {
+		if cc, ok := n.(*ast.CaseClause); ok {
+			if obj := info.Implicits[cc]; obj != nil {
+				t := shortType(obj.Type())
+				if prev, seen := m[obj.Name()]; seen && prev != t {
+					m[obj.Name()] = "var"
+				} else {
+					m[obj.Name()] = t
+				}
+			}
+		}
+		return true
+	})
+	localNamesCache[f] = m
+	return m
+}
+
+func shortType(t types.Type) string {
+	s := types.TypeString(t, func(p *types.Package) string { return "" })
+	if len(s) > 40 {
+		s = s[:40] + "…"
+	}
+	return s
+}
+
+// normLocals rewrites identifier tokens of `what` that name locals of f (and
+// are not selected fields: not preceded by '.') to ‹type›.
+func normLocals(f *ScopeFunc, what string) string {
+	names := localNames(f)
+	if len(names) == 0 {
+		return what
+	}
+	var b strings.Builder
+	i := 0
+	for i < len(what) {
+		c := what[i]
+		if c == '_' || c >= 'a' && c <= 'z' || c >= 'A' && c <= 'Z' {
+			j := i
+			for j < len(what) && (what[j] == '_' || what[j] >= 'a' && what[j] <= 'z' || what[j] >= 'A' && what[j] <= 'Z' || what[j] >= '0' && what[j] <= '9') {
+				j++
+			}
+			tok := what[i:j]
+			if t, ok := names[tok]; ok && (i == 0 || what[i-1] != '.') && !(j < len(what) && what[j] == '(' && false) {
+				b.WriteString("‹" + t + "›")
+			} else {
+				b.WriteString(tok)
+			}
+			i = j
+			continue
+		}
+		b.WriteByte(c)
+		i++
+	}
+	return b.String()
 }
 
 // indexable: slice, string, array or pointer to array (not map, not type params).
